@@ -27,10 +27,11 @@ def rule_S1(ctx):
     """FileAllocationTable.get_path: the list is exactly the chain followed from the first sector."""
     fn = ctx.fn(FAT, "FileAllocationTable.get_path", "S1")
     cfg = ctx.cfg(fn, "S1")
-    whiles = [n for n in own_nodes(fn) if isinstance(n, ast.While)]
-    if len(whiles) != 1:
-        raise AnalysisError("S1", where(fn), f"expected one chain-walk loop, found {len(whiles)}")
-    loop = whiles[0]
+    loops = [n for n in own_nodes(fn) if isinstance(n, (ast.While, ast.For))
+             and any(isinstance(c, ast.Call) and isinstance(c.func, ast.Attribute) and c.func.attr == "append" for c in ast.walk(n))]
+    if len(loops) != 1:
+        raise AnalysisError("S1", where(fn), f"expected one chain-walk loop, found {len(loops)}")
+    loop = loops[0]
     appends = [n for n in ast.walk(loop) if isinstance(n, ast.Call) and isinstance(n.func, ast.Attribute) and n.func.attr == "append"]
     ok = len(appends) == 1 and isinstance(appends[0].args[0], ast.Name) and isinstance(appends[0].func.value, ast.Name)
     ctx.ob("S1", loop, "the walk appends exactly one value per iteration, and it is a cursor variable", ok,
@@ -115,7 +116,7 @@ def rule_S1(ctx):
                 # `counter >= size -> Broken FAT` test then contradicts the guard, so a well-formed chain that
                 # fills the whole table is not rejected
                 from .termination import delta_of
-                gv = [n.id for n in ast.walk(loop.test) if isinstance(n, ast.Name)]
+                gv = [n.id for n in ast.walk(loop.test) if isinstance(n, ast.Name)] if isinstance(loop, ast.While) else []
                 for g in gv:
                     d = delta_of(g, [(s.kind, s.ast, s.label) for s in pr.steps if s.ast is not None], Evaluator())
                     okg = d is not None and d == Term.const(0)
@@ -127,6 +128,11 @@ def rule_S1(ctx):
                        "" if ok4 else f"loop exit through lines {lines} is not the `.end` exit (or skips the append / moves the cursor)", inst=f"exit:{_pc(pr)}")
     if n_back == 0:
         raise AnalysisError("S1", where(loop), "no back-edge path found in the chain walk")
+    if isinstance(loop, ast.For):
+        it = loop.iter
+        okb = isinstance(it, ast.Call) and norm(it.func) == "range" and len(it.args) == 1 and norm(it.args[0]) == "self.size" \
+            and bool(loop.orelse) and any(isinstance(n, ast.Raise) for st in loop.orelse for n in ast.walk(st))
+        ctx.ob("S1", loop, "the walk is bounded by the table size and running out of steps is reported as a broken table", okb, "", inst="for-bound")
 
 
 def _pc(pr):
@@ -355,17 +361,21 @@ def rule_S4(ctx):
     SL = A("self.sector_length")
     first_idx = A("floordiv(self.position,self.sector_length)")
     first_off = A("mod(self.position,self.sector_length)")
-    # loop counter facts
     whiles = [n for n in own_nodes(fn) if isinstance(n, ast.While)]
     if len(whiles) != 1:
         raise AnalysisError("S4", where(fn), f"expected one middle-sector loop, found {len(whiles)}")
     loop = whiles[0]
+    # the remaining-size counter is the variable compared in the middle-sector loop guard
+    rem = None
+    g = loop.test
+    if isinstance(g, ast.Compare) and len(g.ops) == 1:
+        for side in (g.left, g.comparators[0]):
+            if isinstance(side, ast.Name):
+                rem = side.id
     n_calls_total = 0
-    remaining = None
     for p in prs:
         calls = list(calls_on(p, attr="_read_sector"))
         if not calls:
-            # paths without sector access must be the empty-request exit
             if p.end == "return":
                 conds = path_conds_struct(ctx, fn, p)
                 z = any(holds_at(d, op if t else NEG[op], **{size: 0}) for d, op, t, _ in conds if d.atoms() <= {size})
@@ -374,44 +384,54 @@ def rule_S4(ctx):
             continue
         n_calls_total += len(calls)
         conds = path_conds_struct(ctx, fn, p)
-        # (d) zero-size guard: some comparison over `size` alone excludes size == 0 on this path
         guarded = any(d.atoms() <= {size} and d.atoms() and holds_at(d, op if t else NEG[op], **{size: 0}) is False for d, op, t, _ in conds)
         ctx.ob("S4", calls[0][0], "(d) every sector access is preceded by a test that excludes an empty request", guarded,
                "" if guarded else f"path through lines {p.lines()} reaches _read_sector with size == 0 possible: addresses one sector past the chain at its end",
                inst=f"zero-guard:{_pc(p)}")
-        # walk events
-        evs = _events(ctx, fn, p, size)
         # (c) first piece
-        c0, env0, _ = calls[0]
+        c0, env0, st0 = calls[0]
         ev = evaluator(ctx, fn, env0)
         a = [ev.ev(x) for x in c0.args]
         okc = len(a) == 3 and a[0] == first_idx and a[1] == first_off
         n0 = a[2] if len(a) == 3 else None
+        rest = SL - first_off
         fits = (first_off + A(size) - SL, "<=")
+        minform = A("min(" + ",".join(sorted([A(size).key(), rest.key()])) + ")")
         if n0 == A(size):
             okc = okc and cond_taken(conds, *fits)
-        elif n0 == SL - first_off:
+        elif n0 == rest:
             okc = okc and cond_taken(conds, fits[0], ">")
+        elif n0 == minform:
+            pass
         else:
             okc = False
         ctx.ob("S4", c0, "(c) first piece starts at position//sector_length, offset position%sector_length, length = size if it fits else the rest of the sector", okc,
                "" if okc else f"first _read_sector({', '.join(x.key() for x in a)}) under [{_pc(p)}]", inst=f"first:{_pc(p)}")
-        # (a) pairing: each call's length is subtracted from the remaining counter (the last piece takes all of it)
-        oka, det = _pairing(evs, A(size))
-        ctx.ob("S4", c0, "(a) every piece's length is deducted from the remaining size (last piece = all that remains)", oka, det, inst=f"pairing:{_pc(p)}")
-        # (b) indices of later calls: first + counter, offset 0
-        okb = True
-        detb = ""
+        # (a) accounting
+        oka, det = True, ""
+        if rem is None:
+            oka, det = False, "no remaining-size counter (variable of the middle-sector loop guard) found"
+        else:
+            val = _value_before_loop(ctx, fn, p, rem, loop)
+            if val is None or n0 is None or val != A(size) - n0:
+                oka, det = False, f"after the first piece `{rem}` is {val.key() if val is not None else '?'}, not size - (first piece length)"
+            for c, env, st in calls[1:]:
+                if not _inside(c, loop):
+                    e2 = evaluator(ctx, fn, env)
+                    n = e2.ev(c.args[2])
+                    cur = e2.ev(ast.Name(id=rem, ctx=ast.Load()))
+                    if n != cur:
+                        oka, det = False, f"final piece has length {n.key()}, not the remaining size `{rem}` ({cur.key()})"
+        ctx.ob("S4", c0, "(a) the remaining size is (size - first piece) after the first read and the last piece takes all that remains", oka, det, inst=f"pairing:{_pc(p)}")
+        okb, detb = True, ""
         for c, env, st in calls[1:]:
-            ev = evaluator(ctx, fn, env)
-            a = [ev.ev(x) for x in c.args]
-            idx = a[0] - first_idx
-            if not (len(idx.p) == 1 and list(idx.p.values())[0] == 1 and list(idx.p)[0] and list(idx.p)[0][0].endswith("~")) or a[1] != C(0):
-                okb, detb = False, f"_read_sector({', '.join(x.key() for x in a)}) at line {c.lineno}: index is not first+counter / offset not 0"
-            if _inside(c, loop) and a[2] != SL:
-                okb, detb = False, f"middle piece length {a[2].key()} is not sector_length"
-        ctx.ob("S4", c0, "(b) later pieces read sectors first+1, first+2, ... from offset 0; middle pieces are whole sectors", okb, detb, inst=f"indices:{_pc(p)}")
-        # (e) length check dominates the normal return
+            e2 = evaluator(ctx, fn, env)
+            aa = [e2.ev(x) for x in c.args]
+            if aa[1] != C(0):
+                okb, detb = False, f"_read_sector({', '.join(x.key() for x in aa)}) at line {c.lineno}: later piece does not start at offset 0"
+            if _inside(c, loop) and aa[2] != SL:
+                okb, detb = False, f"middle piece length {aa[2].key()} is not sector_length"
+        ctx.ob("S4", c0, "(b) later pieces start at offset 0; middle pieces are whole sectors", okb, detb, inst=f"offsets:{_pc(p)}")
         if p.end == "return":
             oke = False
             for c_txt, taken, node in p.conds:
@@ -421,47 +441,77 @@ def rule_S4(ctx):
                         oke = True
             ctx.ob("S4", p.ret_node, "(e) the bytes returned were checked to have the requested length (short sector read raises SectorReadError)", oke,
                    "" if oke else f"return at line {p.ret_node.lineno} is not dominated by `len(result) != size -> raise SectorReadError`", inst=f"lencheck:{_pc(p)}")
-    # loop counter: initialised to 1, +1 per iteration, one read per iteration
+    if n_calls_total == 0:
+        raise AnalysisError("S4", where(fn), "no _read_sector call found")
+    # loop-level obligations
     cfg = ctx.cfg(fn, "S4")
     lp = cfg.loop_of(loop)
-    counters = set()
-    for p in prs:
-        for c, env, st in calls_on(p, attr="_read_sector"):
-            if _inside(c, loop):
-                ev = evaluator(ctx, fn, env)
-                idx = ev.ev(c.args[0]) - first_idx
-                for mono in idx.p:
-                    if mono and mono[0].endswith("~"):
-                        counters.add(mono[0][:-1])
-    okl = len(counters) == 1
-    det = ""
-    if okl:
-        i = counters.pop()
-        inits = [n for n in own_nodes(fn) if isinstance(n, ast.Assign) and any(isinstance(t, ast.Name) and t.id == i for t in n.targets) and not _inside(n, loop)]
-        okl = len(inits) == 1 and isinstance(inits[0].value, ast.Constant) and inits[0].value.value == 1
-        det = "" if okl else f"counter `{i}` is not initialised to 1 exactly once before the loop"
-        from .termination import delta_of, simple_stmts_of
-        ev0 = Evaluator(const_of=ctx.folder.const_of(fn._module))
+    loop_calls = [c for c in ast.walk(loop) if isinstance(c, ast.Call) and isinstance(c.func, ast.Attribute) and c.func.attr == "_read_sector"]
+    tail_calls = [c for c in own_nodes(fn) if isinstance(c, ast.Call) and isinstance(c.func, ast.Attribute) and c.func.attr == "_read_sector"
+                  and not _inside(c, loop) and c.lineno > loop.lineno]
+    okl, det = len(loop_calls) == 1 and len(tail_calls) == 1, ""
+    oka2, deta2 = True, ""
+    if not okl:
+        det = f"{len(loop_calls)} reads inside the middle-sector loop, {len(tail_calls)} tail reads"
+    else:
+        idx_expr = loop_calls[0].args[0]
+        for path, end, lab in cfg.paths(cfg.entry, lambda s_, l_, n_: s_ == lp.head):
+            if end != lp.head:
+                continue
+            pr0 = _walk(ctx, fn, cfg, path)
+            if not any(c in loop_calls or True for c in []):
+                pass
+            v0 = evaluator(ctx, fn, pr0.env).ev(idx_expr)
+            reads_first = any(s_.kind == "stmt" and any(isinstance(c, ast.Call) and isinstance(c.func, ast.Attribute) and c.func.attr == "_read_sector" for c in ast.walk(s_.ast)) for s_ in pr0.steps)
+            if reads_first and v0 != first_idx + C(1):
+                okl, det = False, f"first middle sector index is {v0.key()}, expected first + 1"
         for kind, path, edge in cfg.iteration_paths(lp):
             if kind != "back":
                 continue
-            stmts = simple_stmts_of(cfg, path)
-            d = delta_of(i, stmts, ev0)
-            ncalls = sum(1 for k, s, l in stmts if k == "stmt" for c in ast.walk(s) if isinstance(c, ast.Call) and isinstance(c.func, ast.Attribute) and c.func.attr == "_read_sector")
-            if d is None or d != C(1) or ncalls != 1:
-                okl, det = False, f"an iteration changes `{i}` by {d.key() if d is not None else '?'} and performs {ncalls} sector read(s)"
-    else:
-        det = f"loop index variables found: {sorted(counters)}"
-    ctx.ob("S4", loop, "(b) the sector counter starts at 1 and grows by exactly 1 per sector read", okl, det, inst="counter")
-    if n_calls_total == 0:
-        raise AnalysisError("S4", where(fn), "no _read_sector call found")
-    # _read_sector bound
+            pr1 = _walk(ctx, fn, cfg, path)
+            env_in = pr1.steps[1].env if len(pr1.steps) > 1 else pr1.steps[0].env
+            before = evaluator(ctx, fn, env_in).ev(idx_expr)
+            after = evaluator(ctx, fn, pr1.env).ev(idx_expr)
+            ncalls = sum(1 for s_ in pr1.steps if s_.kind == "stmt" for c in ast.walk(s_.ast) if c in loop_calls)
+            if after - before != C(1) or ncalls != 1:
+                okl, det = False, f"an iteration moves the sector index by {(after - before).key()} and performs {ncalls} sector read(s)"
+            if rem is not None:
+                rb = evaluator(ctx, fn, env_in).ev(ast.Name(id=rem, ctx=ast.Load()))
+                ra = evaluator(ctx, fn, pr1.env).ev(ast.Name(id=rem, ctx=ast.Load()))
+                if rb - ra != SL:
+                    oka2, deta2 = False, f"an iteration reads a whole sector but changes `{rem}` by {(ra - rb).key()}"
+        for p in prs:
+            for c, env, st in calls_on(p, attr="_read_sector"):
+                if c is tail_calls[0]:
+                    e2 = evaluator(ctx, fn, env)
+                    if e2.ev(c.args[0]) != e2.ev(idx_expr):
+                        okl, det = False, f"tail piece reads sector {e2.ev(c.args[0]).key()}, the running index is {e2.ev(idx_expr).key()}"
+    ctx.ob("S4", loop, "(b) sector indices: first middle sector = first+1, +1 per sector read, the tail piece continues with the same running index", okl, det, inst="index-progression")
+    ctx.ob("S4", loop, "(a) every middle sector read is deducted from the remaining size", oka2, deta2, inst="loop-accounting")
     rs = _method(ctx, SECTOR, "SectorStream", "_read_sector", "S4")
     prs2 = run_paths(ctx, rs, rule="S4")
     pr = [a.arg for a in rs.args.args][1:]
     ok = any(p.end == "raise" and p.raised and p.raised.endswith("AttemptToReadBeyondBuffer") and
              cond_taken(path_conds_struct(ctx, rs, p), A(pr[1]) + A(pr[2]) - SL, ">") for p in prs2)
     ctx.ob("S4", rs, "a piece never extends past its sector (offset + size > sector_length raises)", ok, "", inst="piece-bound")
+
+
+def _value_before_loop(ctx, fn, p, name, loop):
+    """value of local `name` when the path first reaches the loop head (before havoc), or at the end of the
+    straight-line prefix if the path never reaches it"""
+    val = None
+    for s in p.steps:
+        if s.kind == "test" and s.ast is loop:
+            break
+        if s.kind == "stmt" and isinstance(s.ast, (ast.Assign, ast.AugAssign)):
+            tgts = s.ast.targets if isinstance(s.ast, ast.Assign) else [s.ast.target]
+            if any(isinstance(t, ast.Name) and t.id == name for t in tgts):
+                ev = evaluator(ctx, fn, s.env)
+                if isinstance(s.ast, ast.Assign):
+                    val = ev.ev(s.ast.value)
+                else:
+                    val = ev.ev(ast.BinOp(left=s.ast.target, op=s.ast.op, right=s.ast.value))
+    return val
 
 
 def _events(ctx, fn, p, size):
@@ -602,7 +652,18 @@ def rule_S5(ctx):
                 ok = (cond_taken(conds, tgt - EOF, "<=") or cond_taken(conds, tgt - EOF, "<")) and \
                      (cond_taken(conds, tgt, ">=") or cond_taken(conds, tgt, ">"))
             elif newpos.key().startswith(("min(", "max(")):
-                ok = newpos.key() in (f"max(0,min({','.join(sorted([EOF.key(), tgt.key()]))}))", f"min({','.join(sorted([EOF.key(), 'max(' + ','.join(sorted(['0', tgt.key()])) + ')']))})")
+                k = newpos.key()
+                mx = "max(" + ",".join(sorted(["0", tgt.key()])) + ")"
+                mn = "min(" + ",".join(sorted([EOF.key(), tgt.key()])) + ")"
+                both = (f"max({','.join(sorted(['0', mn]))})", f"min({','.join(sorted([EOF.key(), mx]))})")
+                if k in both:
+                    ok = True
+                elif k == mx:   # lower clamp by max(); the upper side must have been excluded by a test
+                    ok = cond_taken(conds, tgt - EOF, "<=") or cond_taken(conds, tgt - EOF, "<")
+                elif k == mn:   # upper clamp by min(); the lower side must have been excluded by a test
+                    ok = cond_taken(conds, tgt, ">=") or cond_taken(conds, tgt, ">")
+                else:
+                    ok = False
             else:
                 ok = False
             det = "" if ok else f"new position {newpos.key()} under [{_pc(p)}] is not clamp(base+offset, 0, end_of_file)"
@@ -772,6 +833,20 @@ def rule_S7(ctx):
         for c, env, st in calls_on(p):
             d = c.func.attr if isinstance(c.func, ast.Attribute) else (c.func.id if isinstance(c.func, ast.Name) else "")
             calls.setdefault(d, []).append((c, env))
+            # one level of helper inlining: a module-level function of the same module receiving the raw bytes
+            if isinstance(c.func, ast.Name):
+                r = ctx.prog.resolve(rr._module, c.func.id)
+                if r and r[0] == "func" and r[2] is rr._module:
+                    h = r[1]
+                    hparams = [a_.arg for a_ in h.args.args]
+                    evc = evaluator(ctx, rr, env)
+                    henv = {pn: evc.ev(av) for pn, av in zip(hparams, c.args)}
+                    for k_ in c.keywords:
+                        henv[k_.arg] = evc.ev(k_.value)
+                    for hp in [q for q in run_paths(ctx, h, env0=henv, rule="S7") if q.end == "return"][:1]:
+                        for c2, env2, st2 in calls_on(hp):
+                            d2 = c2.func.attr if isinstance(c2.func, ast.Attribute) else (c2.func.id if isinstance(c2.func, ast.Name) else "")
+                            calls.setdefault(d2, []).append((c2, env2))
         ok = True
         det = []
         sup = [x for x in calls.get("_read", []) if is_super_call(x[0], "_read")]
